@@ -2,7 +2,7 @@
    Model: model/Diversify.v (pynndescent_.diversify / sparse.diversify rows,
    pynndescent_.diversify_csr / sparse.diversify_csr rows). *)
 From Coq Require Import ZArith List Bool Lia.
-From PV Require Import Base ListAux Rng Diversify C15Proofs.
+From PV Require Import Base ListAux Rng Diversify C15Proofs C15Wiring.
 Import ListNotations.
 Open Scope Z_scope.
 
@@ -92,3 +92,21 @@ Proof. vm_compute. split; reflexivity. Qed.
 Example C15_tau_rand_can_return_one :
   fst (tau_rand [524286; 0; 0]) = 1065353216.
 Proof. vm_compute. reflexivity. Qed.
+
+(* Index level (NNDescent._init_search_graph): the reverse pass as coded runs over a transposed VIEW, i.e. over
+   the forward rows again, and removes nothing from the transposed rows (model: proofs/C15Wiring.v).  On four
+   points of the plane the search graph as coded contains the edge 1 -> 0 which the property's rule removes
+   (and which the intended wiring - the same greedy rule over the transposed rows - does remove), while the
+   forward edge 0 -> 1 is rightly kept.  The witness is replayed on the real index by the check on every run
+   (known finding, KNOWN_FINDINGS.jsonl / DESIGN 11.2). *)
+Theorem C15_index_reverse_pass_refuted :
+  edge_intended wit_dm 4 0 wit_knn 1 0 = false /\ edge_as_coded wit_dm 4 0 wit_knn 1 0 = true /\
+  edge_intended wit_dm 4 0 wit_knn 0 1 = true.
+Proof. exact index_reverse_pass_refuted. Qed.
+Print Assumptions C15_index_reverse_pass_refuted.
+
+(* what the intended reverse pass keeps obeys the property's rule for every graph and every point *)
+Theorem C15_intended_reverse_rows_greedy :
+  forall dm npts eps g i,
+    greedy_spec dm npts eps (sort_w (incoming g i)) (spec_flags dm npts eps (sort_w (incoming g i))).
+Proof. exact reverse_intended_is_greedy. Qed.
